@@ -67,3 +67,50 @@ package ast
 // @   loop 0 invariant 0 - 1 <= rangeindex && rangeindex < len(b.Tokens) && (rangeindex < 0 ==> len(sql) == 0)
 // @   loop 0 step[C10] sep: len(sql) == prev(len(sql)) + len(b.Tokens[rangeindex].Raw) + ite(prev(len(sql)) > 0 && rangeindex >= 1 && b.Tokens[rangeindex - 1].End < b.Tokens[rangeindex].Pos, 1, 0)
 // @   loop 0 decreases len(b.Tokens) - rangeindex
+
+// ---------------------------------------------------------------------------------------------
+// Traversal (C17): the step contract of walkMain. The visitor is the caller's code: its methods are
+// assumed not to touch the walk's private stack (it is allocated by Walk and never handed out) nor the
+// tree; what they return is opaque.
+// @ func iface ast.Visitor.Visit
+// @   trusted
+// @   modifies nothing
+// @ func iface ast.Visitor.VisitMany
+// @   trusted
+// @   modifies nothing
+// @ func iface ast.Visitor.Field
+// @   trusted
+// @   modifies nothing
+// @ func iface ast.Visitor.Index
+// @   trusted
+// @   modifies nothing
+
+// walkInternal pushes the children of one node on top of the stack it is given (which children, in which
+// order and under which Field label is proved per node type by the catalog engine, C17/C19 case obligations).
+// @ func ast.walkInternal
+// @   trusted
+// @   requires forall k: 0 <= k && k < len(stack) ==> stack[k] != nil
+// @   ensures len(result) >= len(stack) && (forall k: 0 <= k && k < len(stack) ==> result[k] == stack[k]) && (forall k: 0 <= k && k < len(result) ==> result[k] != nil)
+// @   modifies nothing
+
+// One iteration of walkMain pops exactly the top item and
+//   - drops it when it is empty (no node, no list);
+//   - for a list item: pushes one item per element, the last element first (so that the first is popped,
+//     i.e. visited, first), all of them at once - pruning below one element cannot lose its siblings;
+//   - for a node item: pushes nothing when Visit returned nil (pruned), otherwise whatever walkInternal pushes;
+// and never touches the items below the popped one.
+// @ func ast.walkMain
+// @   props C17
+// @   requires forall k: 0 <= k && k < len(stack) ==> stack[k] != nil
+// @   panics when true
+// @   modifies nothing
+// @   loop 0 terminates assumed -- the tree is finite and acyclic (every item pushed is a child of the node popped)
+// @   loop 0 invariant forall k: 0 <= k && k < len(stack) ==> stack[k] != nil
+// @   loop 0 step[C17] below: len(stack) >= len(prev(stack)) - 1 && (forall k: 0 <= k && k < len(prev(stack)) - 1 ==> stack[k] == prev(stack)[k])
+// @   loop 0 step[C17] empty: isNil(prev(stack)[len(prev(stack)) - 1].node) && isNil(prev(stack)[len(prev(stack)) - 1].nodes) ==> len(stack) == len(prev(stack)) - 1
+// @   loop 0 step[C17] many: !isNil(prev(stack)[len(prev(stack)) - 1].nodes) ==> len(stack) == len(prev(stack)) - 1 + len(prev(stack)[len(prev(stack)) - 1].nodes) && (forall j: 0 <= j && j < len(prev(stack)[len(prev(stack)) - 1].nodes) ==> stack[len(prev(stack)) - 1 + j].node == prev(stack)[len(prev(stack)) - 1].nodes[len(prev(stack)[len(prev(stack)) - 1].nodes) - 1 - j] && isNil(stack[len(prev(stack)) - 1 + j].nodes))
+// @   loop 1 invariant 0 - 1 <= i && i < len(last.nodes) && len(stack) == len(atentry(stack)) + (len(last.nodes) - 1 - i) && !isNil(last.nodes)
+// @   loop 1 invariant forall k: 0 <= k && k < len(atentry(stack)) ==> stack[k] == atentry(stack)[k]
+// @   loop 1 invariant forall j: 0 <= j && j < len(last.nodes) - 1 - i ==> stack[len(atentry(stack)) + j] != nil && stack[len(atentry(stack)) + j].node == last.nodes[len(last.nodes) - 1 - j] && isNil(stack[len(atentry(stack)) + j].nodes)
+// @   loop 1 invariant forall k: 0 <= k && k < len(stack) ==> stack[k] != nil
+// @   loop 1 decreases i + 1
